@@ -100,9 +100,8 @@ func validUTF8(s string) bool {
 	return true
 }
 
-// RefScan tokenizes src. stop >= 0 means: the token with that index is an
-// error token whose extent the language leaves open ('!' followed by
-// something else); comparison is meaningful only up to its kind and start.
+// RefScan tokenizes src. stop is reserved for error tokens whose extent the
+// language leaves open (none at present: always -1).
 func RefScan(src string) (toks []RTok, stop int) {
 	stop = -1
 	i := 0
@@ -301,8 +300,9 @@ func RefScan(src string) (toks []RTok, stop int) {
 				i += 2
 				emit(parser.TokenCaseInsensitiveNE, start, i)
 			default:
-				toks = append(toks, RTok{Kind: parser.TokenError, Start: start, End: start + 1})
-				return toks, len(toks) - 1
+				// a lone '!' is one unrecognisable piece; what follows is scanned on its own
+				i++
+				toks = append(toks, RTok{Kind: parser.TokenError, Start: start, End: i})
 			}
 		case c == '<':
 			if i+1 < n && src[i+1] == '=' {
